@@ -1043,6 +1043,15 @@ enum Item {
     Include { child: usize, origin: Option<RName>, relative_spelling: String },
 }
 
+/// On-disk path of a file of the tree: a '~' in the relative path stands for the octet 0xF6, which
+/// makes the file name invalid UTF-8 (Unix file names are arbitrary octets, and the $INCLUDE path
+/// grammar can spell any octet as \DDD).
+fn disk_path(dir: &std::path::Path, rel: &str) -> PathBuf {
+    use std::os::unix::ffi::OsStrExt;
+    let bytes: Vec<u8> = rel.bytes().map(|b| if b == b'~' { 0xf6 } else { b }).collect();
+    dir.join(std::ffi::OsStr::from_bytes(&bytes))
+}
+
 pub fn run_c25(ctx: &Ctx, rep: &mut Report) {
     let n = ctx.cases(16_000, 160_000);
     let origins = [RName::simple("example.test."), RName::simple("sub.example.test."), RName::simple("inc.test."), RName::root()];
@@ -1064,7 +1073,7 @@ pub fn run_c25(ctx: &Ctx, rep: &mut Report) {
         // build a tree of files: node 0 is the root file
         let n_files = rng.range(1, 6);
         let dirs = ["", "sub/", "sub/deeper/", "other/"];
-        let mut nodes: Vec<FileNode> = (0..n_files).map(|i| FileNode { rel_path: format!("{}f{}.zone", dirs[rng.below(dirs.len())], i), items: Vec::new() }).collect();
+        let mut nodes: Vec<FileNode> = (0..n_files).map(|i| FileNode { rel_path: format!("{}{}{}.zone", dirs[rng.below(dirs.len())], if i > 0 && rng.chance(1, 6) { "~" } else { "f" }, i), items: Vec::new() }).collect();
         // each file i > 0 is included exactly once by some file j < i (a tree => depth well defined)
         let mut parent = vec![0usize; n_files];
         for i in 1..n_files {
@@ -1090,7 +1099,7 @@ pub fn run_c25(ctx: &Ctx, rep: &mut Report) {
                 for _ in 0..ups {
                     spelled.push_str("../");
                 }
-                spelled.push_str(&nodes[c].rel_path);
+                spelled.push_str(&nodes[c].rel_path.replace('~', "\\246"));
                 items.insert(at, Item::Include { child: c, origin, relative_spelling: spelled });
             }
             nodes[i].items = items;
@@ -1210,7 +1219,7 @@ pub fn run_c25(ctx: &Ctx, rep: &mut Report) {
         visit(0, 0, max_depth, PState::default(), &nodes, &mut rng, &mut texts, &mut expected, &mut flat, &mut too_deep, &origins, no_origin_root, &mut trap);
         let mut write_failed = false;
         for (i, node) in nodes.iter().enumerate() {
-            if std::fs::write(dir.join(&node.rel_path), &texts[i]).is_err() {
+            if std::fs::write(disk_path(&dir, &node.rel_path), &texts[i]).is_err() {
                 write_failed = true;
             }
         }
@@ -1290,7 +1299,7 @@ pub fn run_c25(ctx: &Ctx, rep: &mut Report) {
             continue;
         }
         for (g, (fi, e)) in got.iter().zip(expected.iter()) {
-            let want_path = dir.join(&nodes[*fi].rel_path);
+            let want_path = disk_path(&dir, &nodes[*fi].rel_path);
             let same_file = match (std::fs::canonicalize(&g.0), std::fs::canonicalize(&want_path)) {
                 (Ok(a), Ok(b)) => a == b,
                 _ => false,
